@@ -522,7 +522,7 @@ func TestC07(t *testing.T) {
 				if u.N(2, "forgesend") == 0 {
 					orig = g.Send()
 				}
-				_, other := u.N(len(w.G.U.Users), "forgeother"), w.G.U.Users[u.N(len(w.G.U.Users), "forgeother2")]
+				other := w.G.U.Users[u.N(len(w.G.U.Users), "forgeother")]
 				if twin, ok := forge(orig, u.N(3, "forgehow"), other); ok {
 					if u.N(3, "forgelater") == 0 {
 						bnd := []string{"before-begin", "after-begin", "after-end", "after-commit"}[u.N(4, "forgebnd")]
@@ -539,7 +539,10 @@ func TestC07(t *testing.T) {
 							bnd = fmt.Sprintf("after-tx:%d", k-2)
 						}
 						txs = append(txs[:j:j], append([]txgen.Tx{twin}, txs[j:]...)...)
-						spec = g.DrawEnv(txs)
+						spec.Txs = nil
+						for _, tx := range txs {
+							spec.Txs = append(spec.Txs, tx.Bytes)
+						}
 						push(bnd, orig)
 					}
 				}
